@@ -344,7 +344,8 @@ class SearchRun:
                         seen_terms.add(key)
                         self.vec_terms.append((key, st.ctx.copy()))
         saved = {l: copy.deepcopy(st.cells[fr.locals[l]]) for l in self.acc_locals}
-        it.havoc_loop(st, fr, cfg, head)
+        # plain havoc: the ranges of the loop symbols come from the iterator models, the accumulators from A/B below
+        it.apply_havoc(st, fr, head, it.loop_places(st, fr, cfg, head))
         qz = self.qz
         if mode == 'A':
             for l, v in saved.items():
